@@ -137,77 +137,7 @@ func runC10(c *Ctx) {
 		c.Check(okStatus, "R10.1", "Compile:initial-status", w.FnPos(cf), "starts open", "the snapshot does not start with the open status")
 	}
 
-	// R10.2
-	wa := w.Method("cache", "withSnapshot", "Append")
-	if wa == nil {
-		c.Undecided("R10.2", "anchor:withSnapshot.Append", "cache", "not found")
-	} else {
-		c.seeFn(funcName(wa))
-		var inner, apply, rec ssa.Instruction
-		for _, cl := range Calls(wa) {
-			switch {
-			case strings.HasSuffix(cl.Name, "Interface.Append") || strings.HasSuffix(cl.Name, "Entity.Append"):
-				inner = cl.Instr
-			case strings.HasSuffix(cl.Name, ".Apply"):
-				apply = cl.Instr
-			case strings.HasSuffix(cl.Name, ".AppendOperation"):
-				rec = cl.Instr
-			}
-		}
-		c.Sites += 3
-		ok := inner != nil && apply != nil && rec != nil && instrDominates(apply, rec) && unconditionalInLoop(w, inner) == ""
-		c.Check(ok, "R10.2", "withSnapshot.Append:apply-then-record", w.FnPos(wa), "entity append, then Apply, then AppendOperation", "the incremental update does not perform entity-append / Apply / AppendOperation in Compile's order")
-		// the only condition on apply: snapshot exists
-		if apply != nil {
-			other := ""
-			for _, cc := range controlConds(apply.Block(), nil) {
-				bo, isBo := cc.If.Cond.(*ssa.BinOp)
-				if isBo && (hasField(bo.X, "snap") || hasField(bo.Y, "snap")) {
-					continue
-				}
-				other = w.InstrPos(cc.If)
-			}
-			c.Check(other == "", "R10.2", "withSnapshot.Append:always-when-snapshot", w.InstrPos(apply), "applied whenever a snapshot exists", "the incremental Apply is additionally conditional on "+other+": some appended operations are missing from the served snapshot")
-			// applied to the cached snapshot with the appended operation
-			ac := apply.(*ssa.Call)
-			okArgs := len(ac.Common().Args) == 1 && hasField(ac.Common().Args[0], "snap")
-			if p, isP := ac.Common().Value.(*ssa.Parameter); !isP || p != wa.Params[1] {
-				okArgs = false
-			}
-			c.Check(okArgs, "R10.2", "withSnapshot.Append:same-op-same-snapshot", w.InstrPos(apply), "the appended operation is applied to the cached snapshot", "Apply is not called with the appended operation on the cached snapshot")
-		}
-	}
-	wc := w.Method("cache", "withSnapshot", "Commit")
-	if wc != nil {
-		c.seeFn(funcName(wc))
-		ok := false
-		for _, cl := range Calls(wc) {
-			if strings.HasSuffix(cl.Name, ".Commit") && cl.Value() != nil {
-				for _, fb := range failureBlocks(cl.Value()) {
-					for _, ins := range fb.Instrs {
-						if st, isSt := ins.(*ssa.Store); isSt {
-							if fa, isFA := st.Addr.(*ssa.FieldAddr); isFA && fieldName(fa) == "snap" && isNilConst(st.Val) {
-								ok = true
-							}
-						}
-					}
-				}
-			}
-		}
-		c.Check(ok, "R10.2", "withSnapshot.Commit:drop-on-error", w.FnPos(wc), "a failed commit drops the cached snapshot", "after a failed commit the cached snapshot is kept although the entity's operations may have changed")
-	}
-	// nobody else in package cache appends to the wrapped entity
-	for _, fn := range w.ModFns {
-		if isInstance(fn) || fnPkgPath(fn) != modPath+"/cache" || w.isTestHelper(fn) {
-			continue
-		}
-		for _, cl := range Calls(fn) {
-			if cl.Name == "entity/dag.Entity.Append" || cl.Name == "entities/bug.Bug.Append" || strings.HasSuffix(cl.Name, "dag.Interface.Append") {
-				c.Sites++
-				c.Check(funcName(fn) == "cache.withSnapshot.Append", "R10.2", funcName(fn)+"→Append", w.InstrPos(cl.Instr), "the snapshot-maintaining wrapper", "an operation is appended to the wrapped entity without going through withSnapshot.Append: the cached snapshot misses it")
-			}
-		}
-	}
+	checkWithSnapshot(c)
 
 	// R10.3
 	nWriters := 0
@@ -675,4 +605,82 @@ func isSameParam(v, p ssa.Value) bool {
 		}
 	}
 	return false
+}
+
+// checkWithSnapshot (R10.2): the incrementally maintained snapshot of the cache is the compiled one.
+func checkWithSnapshot(c *Ctx) {
+	w := c.W
+	c.Doc("R10.2", "withSnapshot.Append: appends to the wrapped entity, then (if a snapshot exists) Apply followed by AppendOperation; withSnapshot.Commit drops the snapshot on error; inside package cache only withSnapshot.Append calls Append on the wrapped entity")
+	// R10.2
+	wa := w.Method("cache", "withSnapshot", "Append")
+	if wa == nil {
+		c.Undecided("R10.2", "anchor:withSnapshot.Append", "cache", "not found")
+	} else {
+		c.seeFn(funcName(wa))
+		var inner, apply, rec ssa.Instruction
+		for _, cl := range Calls(wa) {
+			switch {
+			case strings.HasSuffix(cl.Name, "Interface.Append") || strings.HasSuffix(cl.Name, "Entity.Append"):
+				inner = cl.Instr
+			case strings.HasSuffix(cl.Name, ".Apply"):
+				apply = cl.Instr
+			case strings.HasSuffix(cl.Name, ".AppendOperation"):
+				rec = cl.Instr
+			}
+		}
+		c.Sites += 3
+		ok := inner != nil && apply != nil && rec != nil && instrDominates(apply, rec) && unconditionalInLoop(w, inner) == ""
+		c.Check(ok, "R10.2", "withSnapshot.Append:apply-then-record", w.FnPos(wa), "entity append, then Apply, then AppendOperation", "the incremental update does not perform entity-append / Apply / AppendOperation in Compile's order")
+		// the only condition on apply: snapshot exists
+		if apply != nil {
+			other := ""
+			for _, cc := range controlConds(apply.Block(), nil) {
+				bo, isBo := cc.If.Cond.(*ssa.BinOp)
+				if isBo && (hasField(bo.X, "snap") || hasField(bo.Y, "snap")) {
+					continue
+				}
+				other = w.InstrPos(cc.If)
+			}
+			c.Check(other == "", "R10.2", "withSnapshot.Append:always-when-snapshot", w.InstrPos(apply), "applied whenever a snapshot exists", "the incremental Apply is additionally conditional on "+other+": some appended operations are missing from the served snapshot")
+			// applied to the cached snapshot with the appended operation
+			ac := apply.(*ssa.Call)
+			okArgs := len(ac.Common().Args) == 1 && hasField(ac.Common().Args[0], "snap")
+			if p, isP := ac.Common().Value.(*ssa.Parameter); !isP || p != wa.Params[1] {
+				okArgs = false
+			}
+			c.Check(okArgs, "R10.2", "withSnapshot.Append:same-op-same-snapshot", w.InstrPos(apply), "the appended operation is applied to the cached snapshot", "Apply is not called with the appended operation on the cached snapshot")
+		}
+	}
+	wc := w.Method("cache", "withSnapshot", "Commit")
+	if wc != nil {
+		c.seeFn(funcName(wc))
+		ok := false
+		for _, cl := range Calls(wc) {
+			if strings.HasSuffix(cl.Name, ".Commit") && cl.Value() != nil {
+				for _, fb := range failureBlocks(cl.Value()) {
+					for _, ins := range fb.Instrs {
+						if st, isSt := ins.(*ssa.Store); isSt {
+							if fa, isFA := st.Addr.(*ssa.FieldAddr); isFA && fieldName(fa) == "snap" && isNilConst(st.Val) {
+								ok = true
+							}
+						}
+					}
+				}
+			}
+		}
+		c.Check(ok, "R10.2", "withSnapshot.Commit:drop-on-error", w.FnPos(wc), "a failed commit drops the cached snapshot", "after a failed commit the cached snapshot is kept although the entity's operations may have changed")
+	}
+	// nobody else in package cache appends to the wrapped entity
+	for _, fn := range w.ModFns {
+		if isInstance(fn) || fnPkgPath(fn) != modPath+"/cache" || w.isTestHelper(fn) {
+			continue
+		}
+		for _, cl := range Calls(fn) {
+			if cl.Name == "entity/dag.Entity.Append" || cl.Name == "entities/bug.Bug.Append" || strings.HasSuffix(cl.Name, "dag.Interface.Append") {
+				c.Sites++
+				c.Check(funcName(fn) == "cache.withSnapshot.Append", "R10.2", funcName(fn)+"→Append", w.InstrPos(cl.Instr), "the snapshot-maintaining wrapper", "an operation is appended to the wrapped entity without going through withSnapshot.Append: the cached snapshot misses it")
+			}
+		}
+	}
+
 }
